@@ -62,6 +62,12 @@ def case(draw):
     else:
         d = ts * draw(st.integers(1, 128)) / 64
         g2 = {"type": g1["type"], "coordinates": shift_spec_time(g1["type"], g1["coordinates"], d), "meta": g1["meta"]}
+        from vf.checks.c03 import ref_valid
+
+        if not ref_valid(g2["type"], g2["coordinates"]):
+            # adding d can merge two nearly equal free-float times (a line of a multi-line must end strictly later than it starts):
+            # the shifted copy is then no geometry at all, and the pair falls back to the identical placement
+            g2, placement = {"type": g1["type"], "coordinates": g1["coordinates"], "meta": g1["meta"]}, "identical"
     need_pos = k1 in BUFFERED or k2 in BUFFERED
     mult = [2.0**-6, 2.0**-3, 1.0]
     zero_ok = [] if need_pos else [0.0, 0.0]
